@@ -19,9 +19,9 @@ FN_WRAP = "maltoolbox.wrappers:create_attack_graph"
 FN_STEPS = "maltoolbox.language.languagegraph:LanguageGraph._get_attacks_for_asset_type"
 SCOPE = {
     "quick": "6 tiny languages (two-type, 3-level inheritance with no-reaches/+>/+> chain, set operators + variable + "
-             "subType, two chain languages) x 200 seeded models of 1-4 assets each, + coreLang x (shipped example model, 40 "
+             "subType, three chain languages) x 250 seeded models of 1-4 assets each, + coreLang x (shipped example model, 40 "
              "seeded models of 2-6 assets): generate twice on the same objects and once on fresh ones; inputs compared "
-             "with snapshots; wrapper from .mar for every pair (coreLang: 12), from .mal for a third of the tiny ones; "
+             "with snapshots; wrapper from .mar for every pair (coreLang: 12), from .mal instead for a third of the tiny ones, called twice for a quarter; "
              "fresh processes: 9 batches of 10 tiny pairs x {direct, .mar wrapper, .mal wrapper} + 3 coreLang batches of 3 x "
              "{direct, .mar wrapper}, each under PYTHONHASHSEED 0 and 1 and compared with this process",
     "thorough": "same languages x 2500 models of 1-6 assets, coreLang x 400 models of 2-8 assets, wrapper for all; 60 batches "
@@ -78,7 +78,7 @@ def _cases(tier, seed):
     rnd = random.Random(seed)
     quick = tier == "quick"
     pairs = []
-    n_tiny, n_core = (200, 40) if quick else (2500, 400)
+    n_tiny, n_core = (250, 40) if quick else (2500, 400)
     for ln in TINY:
         spec = load_spec(ln)
         for k in range(n_tiny):
@@ -86,7 +86,8 @@ def _cases(tier, seed):
             m = L.random_model_recipe(spec, rnd, n, rnd.choice((0.3, 0.6, 0.9)), attackers=rnd.randint(0, 2))
             files = ("mal" if k % 3 == 0 else "mar")
             pairs.append({"lang": ln, "model": m})
-            yield {"kind": "pair", "lang": ln, "model": m, "files": files, "mfmt": ("json", "yml")[k % 2]}
+            yield {"kind": "pair", "lang": ln, "model": m, "files": files, "mfmt": ("json", "yml")[k % 2],
+                   "wrap2": k % 4 == 0}
     spec = load_spec("corelang")
     concrete = [a["name"] for a in spec["assets"] if not a["isAbstract"]]
     yield {"kind": "pair", "lang": "corelang", "model": "file:simple_example_model.json", "files": "mar", "mfmt": "json"}
@@ -286,8 +287,10 @@ def _run_pair(recipe, r):
                 r.check("C16.wrapper", w == s1, FN_WRAP,
                         "create_attack_graph(%s, %s) serialises differently from the direct API on the in-memory model (%s vs %s)"
                         % (os.path.basename(lf), os.path.basename(mf), w[:40], s1[:40]), "wrapper-differs:" + via)
-                w2 = _wrapper(lf, mf, d)
-                r.check("C16.wrapper", w == w2, FN_WRAP, "two wrapper calls on the same files differ", "wrapper-not-repeatable:" + via)
+                if recipe.get("wrap2"):
+                    w2 = _wrapper(lf, mf, d)
+                    r.check("C16.wrapper", w == w2, FN_WRAP, "two wrapper calls on the same files differ",
+                            "wrapper-not-repeatable:" + via)
         finally:
             shutil.rmtree(d, ignore_errors=True)
     if g1 is not None and any(n.children for n in g1.nodes):
